@@ -99,14 +99,14 @@ Qed.
 
 (* an endpoint that had a connection reported its failure to the application in time, and all of
    its application tasks resolved *)
-Definition Reports (idle_ms : Z) (e : epinfo) : Prop :=
+Definition Reports (idle_ms hs_ms : Z) (e : epinfo) : Prop :=
   e_tdone e = e_tstarted e /\
   (e_started e = 0 \/
-   (e_closed e = 1 /\ e_closed_us e <= deadline idle_ms e /\ e_last_done e <= deadline idle_ms e)).
+   (e_closed e = 1 /\ e_closed_us e <= deadline idle_ms hs_ms e /\ e_last_done e <= deadline idle_ms hs_ms e)).
 
-Lemma ep_reports_sound : forall i e, ep_reports i e = true -> Reports i e.
+Lemma ep_reports_sound : forall i h e, ep_reports i h e = true -> Reports i h e.
 Proof.
-  intros i e H. unfold ep_reports in H. rewrite andb_true_iff in H. destruct H as [A B].
+  intros i h e H. unfold ep_reports in H. rewrite andb_true_iff in H. destruct H as [A B].
   apply Z.eqb_eq in A. split; [exact A|].
   rewrite orb_true_iff in B. destruct B as [B|B].
   - left. apply Z.eqb_eq in B. exact B.
@@ -118,13 +118,13 @@ Definition AllDone (n_bidi n_uni : Z) (c s : epinfo) (fl : list flow) : Prop :=
   (forall f, In f fl -> Complete f) /\ Z.of_nat (length fl) = 2 * n_bidi + n_uni /\
   e_tdone c = e_tstarted c /\ e_tdone s = e_tstarted s.
 
-Theorem c02_sound : forall wd cok nb nu idle pbh c s fl,
-  c02_ok wd cok nb nu idle pbh c s fl = true ->
+Theorem c02_sound : forall wd cok nb nu idle hs pbh c s fl,
+  c02_ok wd cok nb nu idle hs pbh c s fl = true ->
   wd = 0 /\
   (pbh <> 1 -> cok = 1 /\ AllDone nb nu c s fl) /\
-  (pbh = 1 -> AllDone nb nu c s fl \/ (Reports idle c /\ Reports idle s)).
+  (pbh = 1 -> AllDone nb nu c s fl \/ (Reports idle hs c /\ Reports idle hs s)).
 Proof.
-  intros wd cok nb nu idle pbh c s fl H. unfold c02_ok in H.
+  intros wd cok nb nu idle hs pbh c s fl H. unfold c02_ok in H.
   rewrite andb_true_iff in H. destruct H as [Hw H]. apply Z.eqb_eq in Hw.
   split; [exact Hw|].
   assert (Hall : forall b1 b2 b3 b4,
@@ -418,7 +418,7 @@ Theorem stream_judge_parts : forall case out,
   e2e_stream_judge case out = true ->
   exists t, parse_stream out = Some t /\
     c01_ok (t_flows t) = true /\
-    c02_ok (t_watchdog t) (t_connect_ok t) (t_n_bidi t) (t_n_uni t) (t_idle_ms t) (t_perm_bh t)
+    c02_ok (t_watchdog t) (t_connect_ok t) (t_n_bidi t) (t_n_uni t) (t_idle_ms t) (t_hs_ms t) (t_perm_bh t)
            (t_client t) (t_server t) (t_flows t) = true /\
     c12_ok (t_recs t) (t_opened t) = true /\
     c03_ok (t_recs t) = true.
@@ -427,4 +427,277 @@ Proof.
   destruct (parse_stream out) as [t|]; [|discriminate].
   exists t. split; [reflexivity|]. unfold stream_monitor in H.
   repeat rewrite andb_true_iff in H. destruct H as [[[A B] C] D]. auto.
+Qed.
+
+(* ------------------------------------------------------------------------------------------ *)
+(* C11: the wire-log monitor                                                                  *)
+(* ------------------------------------------------------------------------------------------ *)
+
+(* bytes of the events of [l] selected by [p] *)
+Definition sum_len (p : wrec -> bool) (l : list wrec) : Z :=
+  fold_right (fun e a => if p e then w_len e + a else a) 0 l.
+
+Lemma sum_len_cons : forall p x l, sum_len p (x :: l) = if p x then w_len x + sum_len p l else sum_len p l.
+Proof. reflexivity. Qed.
+
+Lemma amp_scan_sound : forall srv cli l seen recv sent valid,
+  amp_scan srv cli seen recv sent valid l = true ->
+  forall pre e post, l = pre ++ e :: post ->
+   (srv_to srv cli e = true -> valid = false -> existsb is_marker pre = false ->
+      sent + sum_len (srv_to srv cli) pre < 3 * (recv + sum_len (to_srv_from srv cli) pre)) /\
+   (w_kind e = 0 -> w_src e = srv -> w_dst e <> cli -> reply_ok srv (rev pre ++ seen) e = true) /\
+   (w_kind e = 0 -> w_src e = cli -> w_class e = 1 -> 1200 <= w_len e).
+Proof.
+  intros srv cli. induction l as [|x t IH]; intros seen recv sent valid H pre e post E.
+  - destruct pre; discriminate.
+  - cbn [amp_scan] in H. repeat rewrite andb_true_iff in H. destruct H as [[[H1 H2] H3] H4].
+    destruct pre as [|p pre]; cbn [app] in E; injection E as E1 E2; subst.
+    + cbn [rev app existsb sum_len fold_right]. split; [|split].
+      * intros S V _. unfold srv_to in S. repeat rewrite andb_true_iff in S. destruct S as [[S1 S2] S3].
+        rewrite S1, S2, S3 in H1. cbn [andb] in H1. subst valid. cbn [orb] in H1.
+        apply Z.ltb_lt in H1. lia.
+      * intros K S D. rewrite K, S in H1. rewrite !Z.eqb_refl in H1. cbn [andb] in H1.
+        destruct (Z.eqb_spec (w_dst e) cli); [contradiction | exact H1].
+      * intros K S C. rewrite K, S, C in H2. rewrite !Z.eqb_refl in H2. cbn [andb] in H2.
+        apply Z.leb_le in H2. exact H2.
+    + destruct (IH _ _ _ _ H4 pre e post eq_refl) as [A [B C]]. split; [|split].
+      * intros S V M. cbn [existsb] in M. rewrite orb_false_iff in M. destruct M as [M1 M2].
+        rewrite !sum_len_cons.
+        assert (A' := A S). rewrite V, M1 in A'. specialize (A' eq_refl M2).
+        destruct (srv_to srv cli p), (to_srv_from srv cli p); lia.
+      * intros K S D. specialize (B K S D). cbn [rev]. rewrite <- app_assoc. exact B.
+      * exact C.
+Qed.
+
+Lemma find_split {A} (p : A -> bool) : forall l t, find p l = Some t ->
+  exists l1 l2, l = l1 ++ t :: l2 /\ p t = true /\ forall x, In x l1 -> p x = false.
+Proof.
+  induction l as [|x l IH]; intros t H; [discriminate|]. cbn [find] in H.
+  destruct (p x) eqn:E.
+  - injection H as H. subst. exists [], l. split; [reflexivity|]. split; [exact E | intros ? []].
+  - destruct (IH t H) as [l1 [l2 [E1 [E2 E3]]]]. exists (x :: l1), l2. subst. split; [reflexivity|].
+    split; [exact E2|]. intros y [Hy|Hy]; [subst; exact E | auto].
+Qed.
+
+(* Prop-level reading of an accepted reply to an address without a connection: going back from
+   the reply, the first event that concerns that address is the delivery of a datagram from it
+   (so the reply answers that datagram and nothing was sent there in between), and the size
+   rules of the property hold against that trigger *)
+Theorem reply_sound : forall srv seen e, reply_ok srv seen e = true ->
+  exists l1 t l2, seen = l1 ++ t :: l2 /\
+    to_srv_from srv (w_dst e) t = true /\
+    (forall x, In x l1 -> srv_to srv (w_dst e) x = false /\ to_srv_from srv (w_dst e) x = false) /\
+    (w_class e = 3 -> 1200 <= w_len t /\ w_class t <> 3) /\
+    (w_class e <> 3 -> w_len e < w_len t).
+Proof.
+  intros srv seen e H. unfold reply_ok in H.
+  destruct (find _ seen) as [t|] eqn:F; [|discriminate].
+  destruct (find_split _ _ _ F) as [l1 [l2 [E1 [E2 E3]]]].
+  rewrite andb_true_iff in H. destruct H as [H1 H2].
+  exists l1, t, l2. split; [exact E1|]. split; [exact H1|]. split.
+  - intros x Hx. specialize (E3 x Hx). rewrite orb_false_iff in E3. exact E3.
+  - destruct (Z.eqb_spec (w_class e) 3) as [C|C].
+    + rewrite andb_true_iff in H2. destruct H2 as [H2 H3]. apply Z.leb_le in H2.
+      split; [|intros; contradiction]. intros _. split; [exact H2|].
+      destruct (Z.eqb_spec (w_class t) 3); [discriminate | assumption].
+    + split; [intros; contradiction|]. intros _. apply Z.ltb_lt in H2. exact H2.
+Qed.
+
+(* the three statements for a whole log, from the start *)
+Theorem amp_sound : forall srv cli l pre e post,
+  amp_scan srv cli [] 0 0 false l = true -> l = pre ++ e :: post ->
+  (* until the first client Handshake packet is processed, a datagram to the client only starts
+     while bytes sent there < 3 x bytes received from there *)
+  (srv_to srv cli e = true -> existsb is_marker pre = false ->
+     sum_len (srv_to srv cli) pre < 3 * sum_len (to_srv_from srv cli) pre) /\
+  (* replies to addresses without a connection *)
+  (w_kind e = 0 -> w_src e = srv -> w_dst e <> cli -> reply_ok srv (rev pre) e = true) /\
+  (* client datagrams that carry an Initial packet are at least 1200 bytes *)
+  (w_kind e = 0 -> w_src e = cli -> w_class e = 1 -> 1200 <= w_len e).
+Proof.
+  intros srv cli l pre e post H E.
+  destruct (amp_scan_sound srv cli l [] 0 0 false H pre e post E) as [A [B C]].
+  split; [|split].
+  - intros S M. specialize (A S eq_refl M). lia.
+  - intros K S D. specialize (B K S D). rewrite app_nil_r in B. exact B.
+  - exact C.
+Qed.
+
+(* ------------------------------------------------------------------------------------------ *)
+(* C06: processed packets                                                                     *)
+(* ------------------------------------------------------------------------------------------ *)
+
+Definition pkey (p : prec) : Z * Z := (p_space p, p_pn p).
+
+Lemma key_lt_trans : forall a b c, key_lt a b = true -> key_lt b c = true -> key_lt a c = true.
+Proof.
+  intros a b c. unfold key_lt. rewrite !orb_true_iff, !andb_true_iff, !Z.ltb_lt, !Z.eqb_eq. lia.
+Qed.
+
+Lemma key_lt_neq : forall a b, key_lt a b = true -> pkey a <> pkey b.
+Proof.
+  intros a b H E. unfold pkey in E. injection E as E1 E2. unfold key_lt in H.
+  rewrite orb_true_iff, andb_true_iff, !Z.ltb_lt, Z.eqb_eq in H. lia.
+Qed.
+
+Lemma strictly_sorted_head : forall l a, strictly_sorted (a :: l) = true ->
+  strictly_sorted l = true /\ forall b, In b l -> key_lt a b = true.
+Proof.
+  induction l as [|x l IH]; intros a H.
+  - split; [reflexivity | intros ? []].
+  - cbn [strictly_sorted] in H. rewrite andb_true_iff in H. destruct H as [H1 H2].
+    split; [exact H2|]. intros b [Hb|Hb]; [subst; exact H1|].
+    destruct (IH x H2) as [_ G]. eapply key_lt_trans; [exact H1 | apply G; exact Hb].
+Qed.
+
+Theorem sorted_nodup : forall l, strictly_sorted l = true -> NoDup (map pkey l).
+Proof.
+  induction l as [|a l IH]; intros H; cbn [map]; [constructor|].
+  destruct (strictly_sorted_head l a H) as [H1 H2]. constructor; [|auto].
+  intros Hin. rewrite in_map_iff in Hin. destruct Hin as [b [E Hb]].
+  apply (key_lt_neq a b (H2 b Hb)). symmetry. exact E.
+Qed.
+
+(* every processed packet is one the peer emitted, and no (space, packet number) is processed twice *)
+Theorem processed_sound : forall l, processed_ok l = true ->
+  (forall p, In p l -> p_genuine p = 1) /\ NoDup (map pkey l).
+Proof.
+  intros l H. unfold processed_ok in H. rewrite andb_true_iff in H. destruct H as [H1 H2]. split.
+  - intros p Hp. rewrite forallb_forall in H1. apply Z.eqb_eq. auto.
+  - apply sorted_nodup. exact H2.
+Qed.
+
+(* ------------------------------------------------------------------------------------------ *)
+(* the judges of e2e_amp and e2e_inject                                                       *)
+(* ------------------------------------------------------------------------------------------ *)
+
+Theorem amp_judge_parts : forall case out, e2e_amp_judge case out = true ->
+  exists rws, take_rows 7 (nz out 8) (skipn 9 out) = Some (rws, []) /\
+    nz out 6 = 0 /\
+    amp_scan (nz out 1) (nz out 2) [] 0 0 false (map mk_wrec rws) = true.
+Proof.
+  intros case out H. unfold e2e_amp_judge in H.
+  destruct (negb _); [discriminate|].
+  destruct (take_rows 7 (nz out 8) (skipn 9 out)) as [[rws rest]|]; [|discriminate].
+  destruct rest; [|discriminate].
+  rewrite andb_true_iff in H. destruct H as [A B]. apply Z.eqb_eq in A.
+  exists rws. auto.
+Qed.
+
+Theorem inject_judge_parts : forall case out, e2e_inject_judge case out = true ->
+  exists fl prc prs,
+    nz out 1 = 0 /\ nz out 2 = 1 /\
+    c01_ok fl = true /\ (forall f, In f fl -> Complete f) /\
+    Z.of_nat (length fl) = 2 * nz out 3 + nz out 4 /\
+    ep_alive (mk_ep (firstn 12 (skipn 5 out))) = true /\
+    ep_alive (mk_ep (firstn 12 (skipn 17 out))) = true /\
+    processed_ok prc = true /\ processed_ok prs = true.
+Proof.
+  intros case out H. unfold e2e_inject_judge in H.
+  destruct (negb _); [discriminate|].
+  destruct (take_rows 10 (nz out 29) (skipn 30 out)) as [[frows rest]|]; [|discriminate].
+  destruct (take_rows 3 _ (skipn 2 (skipn 6 rest))) as [[prc rest2]|]; [|discriminate].
+  destruct (take_rows 3 _ (skipn 2 rest2)) as [[prs rest3]|]; [|discriminate].
+  destruct rest3; [|discriminate].
+  repeat rewrite andb_true_iff in H.
+  destruct H as [[[[[[[[A B] C] D] E] F] G] I] J].
+  apply Z.eqb_eq in A, B, E.
+  exists (map mk_flow frows), (map mk_prec prc), (map mk_prec prs).
+  split; [exact A|]. split; [exact B|]. split; [exact C|]. split.
+  { intros f Hin. apply flow_complete_sound. rewrite forallb_forall in D. auto. }
+  split; [exact E|]. split; [exact F|]. split; [exact G|]. split; [exact I | exact J].
+Qed.
+
+(* ------------------------------------------------------------------------------------------ *)
+(* C03, connection level: what the bookkeeping list [highs] contains                          *)
+(* ------------------------------------------------------------------------------------------ *)
+
+Fixpoint hlookup (ep sid : Z) (h : list (Z * Z * Z)) : option Z :=
+  match h with
+  | [] => None
+  | (ep', sid', e) :: t => if (ep' =? ep) && (sid' =? sid) then Some e else hlookup ep sid t
+  end.
+
+Definition hkeys (h : list (Z * Z * Z)) : list (Z * Z) := map (fun x => (fst (fst x), snd (fst x))) h.
+
+Lemma hlookup_bump_same : forall h ep sid e,
+  hlookup ep sid (bump ep sid e h) =
+  Some (match hlookup ep sid h with Some e' => Z.max e e' | None => e end).
+Proof.
+  induction h as [|[[ep' sid'] e'] t IH]; intros ep sid e; cbn [bump hlookup].
+  - rewrite !Z.eqb_refl. reflexivity.
+  - destruct ((ep' =? ep) && (sid' =? sid)) eqn:E; cbn [hlookup]; rewrite E; [reflexivity | apply IH].
+Qed.
+
+Lemma hlookup_bump_other : forall h ep sid e ep2 sid2, (ep =? ep2) && (sid =? sid2) = false ->
+  hlookup ep2 sid2 (bump ep sid e h) = hlookup ep2 sid2 h.
+Proof.
+  induction h as [|[[ep' sid'] e'] t IH]; intros ep sid e ep2 sid2 N; cbn [bump hlookup].
+  - rewrite N. reflexivity.
+  - destruct ((ep' =? ep) && (sid' =? sid)) eqn:E; cbn [hlookup].
+    + rewrite andb_true_iff in E. destruct E as [E1 E2]. apply Z.eqb_eq in E1, E2. subst.
+      rewrite N. reflexivity.
+    + destruct ((ep' =? ep2) && (sid' =? sid2)); [reflexivity | apply IH; exact N].
+Qed.
+
+Lemma hkeys_bump_in : forall h ep sid e k, In k (hkeys (bump ep sid e h)) -> In k (hkeys h) \/ k = (ep, sid).
+Proof.
+  induction h as [|[[ep' sid'] e'] t IH]; intros ep sid e k H; cbn [bump hkeys map] in *.
+  - destruct H as [H|[]]. right. symmetry. exact H.
+  - destruct ((ep' =? ep) && (sid' =? sid)) eqn:E; cbn [map fst snd] in H.
+    + left. exact H.
+    + destruct H as [H|H]; [left; left; exact H|].
+      destruct (IH _ _ _ _ H) as [G|G]; [left; right; exact G | right; exact G].
+Qed.
+
+Lemma hkeys_bump_nodup : forall h ep sid e, NoDup (hkeys h) -> NoDup (hkeys (bump ep sid e h)).
+Proof.
+  induction h as [|[[ep' sid'] e'] t IH]; intros ep sid e H; cbn [bump].
+  - cbn. constructor; [intros [] | constructor].
+  - cbn [hkeys map fst snd] in H. inversion H as [|? ? Hn Ht]; subst.
+    destruct ((ep' =? ep) && (sid' =? sid)) eqn:E; cbn [hkeys map fst snd].
+    + constructor; assumption.
+    + constructor; [|apply IH; exact Ht]. intros Hin.
+      destruct (hkeys_bump_in _ _ _ _ _ Hin) as [G|G]; [contradiction|].
+      injection G as G1 G2. subst. rewrite !Z.eqb_refl in E. discriminate.
+Qed.
+
+(* the largest end offset among the STREAM frames sent by [ep] on [sid] in a list of records *)
+Definition sent_match (ep sid : Z) (r : frec) : bool :=
+  is_tx r && is_stream r && (r_ep r =? ep) && (r_sid r =? sid).
+
+Fixpoint hmax (ep sid : Z) (acc : option Z) (l : list frec) : option Z :=
+  match l with
+  | [] => acc
+  | r :: t => hmax ep sid (if sent_match ep sid r
+                           then Some (match acc with Some a => Z.max (rend r) a | None => rend r end)
+                           else acc) t
+  end.
+
+(* every entry of the bookkeeping list is the per-stream maximum, and no stream has two entries *)
+Theorem highs_meaning : forall pre s,
+  NoDup (hkeys (highs s)) ->
+  NoDup (hkeys (highs (fold_left upd03 pre s))) /\
+  forall ep sid, hlookup ep sid (highs (fold_left upd03 pre s)) = hmax ep sid (hlookup ep sid (highs s)) pre.
+Proof.
+  induction pre as [|r t IH]; intros s N; cbn [fold_left hmax]; [split; [exact N | reflexivity]|].
+  assert (N' : NoDup (hkeys (highs (upd03 s r)))).
+  { unfold upd03. cbn [highs]. destruct (is_tx r && is_stream r); [apply hkeys_bump_nodup|]; exact N. }
+  destruct (IH _ N') as [A B]. split; [exact A|]. intros ep sid. rewrite B. f_equal.
+  unfold upd03, sent_match. cbn [highs]. destruct (is_tx r && is_stream r) eqn:T; cbn [andb]; [|reflexivity].
+  destruct ((r_ep r =? ep) && (r_sid r =? sid)) eqn:K.
+  - rewrite andb_true_iff in K. destruct K as [K1 K2]. apply Z.eqb_eq in K1, K2. subst.
+    rewrite hlookup_bump_same. reflexivity.
+  - rewrite hlookup_bump_other by exact K. reflexivity.
+Qed.
+
+(* the per-property judges are the corresponding conjuncts *)
+Theorem stream_judge_split : forall case out,
+  e2e_stream_judge case out =
+  e2e_stream_judge_c01 case out && e2e_stream_judge_c02 case out &&
+  e2e_stream_judge_c12 case out && e2e_stream_judge_c03 case out.
+Proof.
+  intros case out. unfold e2e_stream_judge, e2e_stream_judge_c01, e2e_stream_judge_c02,
+    e2e_stream_judge_c12, e2e_stream_judge_c03, stream_part.
+  destruct (parse_stream out); reflexivity.
 Qed.
